@@ -821,6 +821,18 @@ Qed.
 
 End Categorize.
 
+Definition cat_start : Z := match cat_it with GEnumerate (GVar 0) k => k | _ => 0%Z end.
+
+Lemma cat_it_shape : cat_it = GEnumerate (GVar 0) cat_start.
+Proof. reflexivity. Qed.
+
+Lemma exec_for_enum env callf xs body l k :
+  exec_stmt env callf (SFor xs (GEnumerate (GVar 0) k) body)
+            (mkfr [Some (VSeq true l None); None; None; None; None; None] None [])
+  = for_loop xs (exec_block env callf body) (enum_from k l)
+             (mkfr [None; None; None; None; None; None] None []).
+Proof. reflexivity. Qed.
+
 (* the call categorize(s), at any call depth >= 1 *)
 Lemma call_categorize d (s : str) :
   call gen_env (S d) F_categorize [VStr s] None = CRet (chars_val (categorize s)) None.
@@ -830,14 +842,12 @@ Proof.
        Nat.leb fd_nlocals fd_body map app skipn Nat.sub repeat].
   rewrite gen_categorize_shape, exec_block_cons.
   match goal with
-  | |- context [exec_stmt ?e ?c ?st ?fr] =>
-    change (exec_stmt e c st fr)
-      with (for_loop cat_xs
-              (exec_block gen_env (call gen_env d)
-                 (GCons cat_s0 (GCons (SFor cat_ys cat_it2 cat_inner) (GCons cat_s2 GNil))))
-              (enum_from 0 (str_tokens 0 s)) (cat_frame None None None None None []))
+  | |- context [exec_stmt _ _ _ ?fr] =>
+    change fr with (mkfr [Some (VSeq true (str_tokens 0 s) None); None; None; None; None; None]
+                         None [])
   end.
-  destruct (cat_outer_loop (call gen_env d) s 0%Z 0%Z None None None None None [])
+  rewrite cat_it_shape, exec_for_enum. fold (cat_frame None None None None None []).
+  destruct (cat_outer_loop (call gen_env d) s 0%Z cat_start None None None None None [])
     as (a1 & a2 & a3 & a4 & a5 & ->).
   reflexivity.
 Qed.
@@ -884,7 +894,10 @@ Proof.
 Qed.
 
 Lemma strs_val_map l : strs_val (map VStr l) = Some (map ReadDSL.VStr l).
-Proof. induction l as [|s l IH]; [reflexivity|]. cbn. cbn in IH. rewrite IH. reflexivity. Qed.
+Proof.
+  unfold strs_val. induction l as [|s l IH]; [reflexivity|].
+  cbn [map all_some]. rewrite IH. reflexivity.
+Qed.
 
 (* the call read_tex(<fresh Buffer of toks>, skip, tolerance) *)
 Lemma call_read_tex_ok d toks strict skip : ReadGenEquiv.NE toks ->
@@ -909,13 +922,38 @@ Proof.
   - rewrite R. reflexivity.
 Qed.
 
-Definition rd_parts : option (gs * gblock) :=
-  match gen_read_body with
-  | GCons s0 rest => Some (s0, rest)
-  | GNil => None
+Lemma call_S env d f args tb :
+  call env (S d) f args tb =
+  match f with
+  | F_read_tex => match tb with None => call_read_tex env args | Some _ => CUnsup end
+  | _ =>
+    match g_funs env f with
+    | Some fd => invoke env (call env d) fd args tb
+    | None => CUnsup
+    end
   end.
-Definition rd_first : gs := match rd_parts with Some (s, _) => s | None => SPass end.
-Definition rd_rest : gblock := match rd_parts with Some (_, r) => r | None => GNil end.
+Proof. reflexivity. Qed.
+
+Local Arguments call : simpl never.
+
+Lemma invoke_plain env callf fd args vs :
+  fd_cursor fd = false -> fd_conv_in fd = false -> fill_args fd args = Some vs ->
+  invoke env callf fd args None
+  = finish fd (exec_block env callf (fd_body fd)
+                 (mkfr (map Some vs ++ repeat None (fd_nlocals fd - length vs)) None [])).
+Proof. intros H1 H2 H3. unfold invoke. rewrite H1, H2, H3. reflexivity. Qed.
+
+Definition rd_parts : option (gs * gs * gs * gs * gs) :=
+  match gen_read_body with
+  | GCons s0 (GCons s1 (GCons s2 (GCons s3 (GCons s4 GNil)))) => Some (s0, s1, s2, s3, s4)
+  | _ => None
+  end.
+Definition rd_first : gs := match rd_parts with Some (s, _, _, _, _) => s | None => SPass end.
+Definition rd_s1 : gs := match rd_parts with Some (_, s, _, _, _) => s | None => SPass end.
+Definition rd_s2 : gs := match rd_parts with Some (_, _, s, _, _) => s | None => SPass end.
+Definition rd_s3 : gs := match rd_parts with Some (_, _, _, s, _) => s | None => SPass end.
+Definition rd_s4 : gs := match rd_parts with Some (_, _, _, _, s) => s | None => SPass end.
+Definition rd_rest : gblock := GCons rd_s1 (GCons rd_s2 (GCons rd_s3 (GCons rd_s4 GNil))).
 
 Lemma gen_read_shape : gen_read_body = GCons rd_first rd_rest.
 Proof. reflexivity. Qed.
@@ -943,20 +981,33 @@ Proof.
   { destruct (tokens_concat s toks TEnd Et) as (_ & _ & H). exact H. }
   pose proof (call_read_tex_ok (S d) toks strict skip HNE) as C3.
   pose proof (run_read_tex toks strict skip HNE) as R.
-  unfold rd_rest, rd_frame. cbn [rd_parts gen_read_body blk].
-  cbn [exec_block exec_stmt do_call eval_list eval get_loc nth_error fr_loc fr_text].
-  rewrite C1.
-  cbn [flat_map used_vars app consume get_loc nth_error fr_loc is_iter bind_targets set_loc upd
-       fr_text fr_out].
-  cbn [exec_block exec_stmt do_call eval_list eval get_loc nth_error fr_loc fr_text].
-  rewrite C2.
-  cbn [flat_map used_vars app consume get_loc nth_error fr_loc is_iter chars_val clear_loc
-       bind_targets set_loc upd fr_text fr_out].
-  cbn [exec_block exec_stmt do_call eval_list eval get_loc nth_error fr_loc fr_text].
-  rewrite C3.
+  unfold rd_rest. rewrite exec_block_cons.
+  assert (S1 : exec_stmt gen_env (call gen_env (S (S d))) rd_s1 (rd_frame (VStr s) skip strict o3)
+               = XNormal (rd_frame (VStr s) skip strict (Some (chars_val (categorize s))))).
+  { unfold rd_s1, rd_frame. cbn. rewrite C1. reflexivity. }
+  rewrite S1, exec_block_cons. clear S1.
+  assert (S2 : exec_stmt gen_env (call gen_env (S (S d))) rd_s2
+                         (rd_frame (VStr s) skip strict (Some (chars_val (categorize s))))
+               = XNormal (rd_frame (VStr s) skip strict (Some (tokens_val toks)))).
+  { unfold rd_s2, rd_frame. cbn. rewrite C2. reflexivity. }
+  rewrite S2, exec_block_cons. clear S2.
+  assert (S3 : exec_stmt gen_env (call gen_env (S (S d))) rd_s3
+                         (rd_frame (VStr s) skip strict (Some (tokens_val toks)))
+               = match call gen_env (S (S d)) F_read_tex
+                            [tokens_val toks; skip_val skip; tol_val strict] None with
+                 | CRet v _ => XNormal (rd_frame (VStr s) skip strict (Some v))
+                 | CExc x => XExc x
+                 | CUnsup => XUnsup
+                 | CFuel => XFuel
+                 end).
+  { unfold rd_s3, rd_frame. cbn.
+    destruct (call gen_env (S (S d)) F_read_tex [tokens_val toks; skip_val skip; tol_val strict] None);
+      destruct strict; reflexivity. }
+  rewrite S3, C3. clear S3.
   destruct (parse_tokens toks strict skip) as [e|er].
-  - destruct R as (v & b & body & -> & Ec & ->). cbn. rewrite Ec. reflexivity.
-  - cbn. reflexivity.
+  - destruct R as (v & b & body & -> & Ec & ->). rewrite exec_block_cons.
+    unfold rd_s4, rd_frame. cbn. rewrite Ec. reflexivity.
+  - rewrite exec_block_cons. unfold rd_s4, rd_frame. cbn. reflexivity.
 Qed.
 
 (* READ on a str *)
@@ -964,11 +1015,19 @@ Lemma call_read_str d s skip strict :
   call gen_env (S (S (S d))) F_read [VStr s; skip_val skip; tol_val strict] None
   = read_cres s (parse s strict skip).
 Proof.
-  rewrite <- (read_rest_ok d s skip strict None).
-  cbn [call g_funs gen_env gen_funs]. unfold invoke.
-  cbn [fd_cursor fd_conv_in gen_read fill_args fd_params fd_defaults length Nat.ltb Nat.leb
-       fd_nlocals fd_body]. rewrite gen_read_shape, exec_block_cons.
-  reflexivity.
+  rewrite <- (read_rest_ok d s skip strict None), call_S.
+  cbn [g_funs gen_env gen_funs].
+  rewrite (invoke_plain gen_env (call gen_env (S (S d))) gen_read
+                        [VStr s; skip_val skip; tol_val strict]
+                        [VStr s; skip_val skip; tol_val strict] eq_refl eq_refl eq_refl).
+  change (fd_body gen_read) with gen_read_body. rewrite gen_read_shape, exec_block_cons.
+  assert (S0 : exec_stmt gen_env (call gen_env (S (S d))) rd_first
+                 (mkfr (map Some [VStr s; skip_val skip; tol_val strict]
+                        ++ repeat None (fd_nlocals gen_read
+                                        - length [VStr s; skip_val skip; tol_val strict])) None [])
+               = XNormal (rd_frame (VStr s) skip strict None)).
+  { unfold rd_first, rd_frame. cbn. reflexivity. }
+  rewrite S0. reflexivity.
 Qed.
 
 (* itertools.chain( *chunks ) followed by ''.join: the concatenation *)
@@ -994,19 +1053,20 @@ Lemma call_read_chunks d l skip strict :
   call gen_env (S (S (S d))) F_read [chunks_val l; skip_val skip; tol_val strict] None
   = call gen_env (S (S (S d))) F_read [VStr (concat l); skip_val skip; tol_val strict] None.
 Proof.
-  rewrite call_read_str, <- (read_rest_ok d (concat l) skip strict None).
-  cbn [call g_funs gen_env gen_funs]. unfold invoke.
-  cbn [fd_cursor fd_conv_in gen_read fill_args fd_params fd_defaults length Nat.ltb Nat.leb
-       fd_nlocals fd_body]. rewrite gen_read_shape, exec_block_cons.
-  assert (E : exec_stmt gen_env (call gen_env (S (S d))) rd_first
-                (mkfr (map Some ([chunks_val l; skip_val skip; tol_val strict] ++ skipn (2 - (3 - 3)) [VTuple []; VInt 0%Z])
-                       ++ repeat None (4 - length ([chunks_val l; skip_val skip; tol_val strict] ++ skipn (2 - (3 - 3)) [VTuple []; VInt 0%Z])))
-                      None [])
-              = XNormal (rd_frame (VStr (concat l)) skip strict None)).
-  { unfold rd_first, rd_frame, chunks_val. cbn [rd_parts gen_read_body blk].
-    cbn. rewrite chain_strs. destruct (join_chars (concat l)) as [-> ->].
-    destruct l; reflexivity. }
-  rewrite E. reflexivity.
+  rewrite call_read_str, <- (read_rest_ok d (concat l) skip strict None), call_S.
+  cbn [g_funs gen_env gen_funs].
+  rewrite (invoke_plain gen_env (call gen_env (S (S d))) gen_read
+                        [chunks_val l; skip_val skip; tol_val strict]
+                        [chunks_val l; skip_val skip; tol_val strict] eq_refl eq_refl eq_refl).
+  change (fd_body gen_read) with gen_read_body. rewrite gen_read_shape, exec_block_cons.
+  assert (S0 : exec_stmt gen_env (call gen_env (S (S d))) rd_first
+                 (mkfr (map Some [chunks_val l; skip_val skip; tol_val strict]
+                        ++ repeat None (fd_nlocals gen_read
+                                        - length [chunks_val l; skip_val skip; tol_val strict])) None [])
+               = XNormal (rd_frame (VStr (concat l)) skip strict None)).
+  { unfold rd_first, rd_frame, chunks_val. cbn. rewrite chain_strs. cbn.
+    destruct (join_chars (concat l)) as [E1 E2]. rewrite E1, E2. destruct l; reflexivity. }
+  rewrite S0. reflexivity.
 Qed.
 
 (* ---- TexSoup *)
@@ -1017,17 +1077,20 @@ Definition soup_cres (s : str) (r : res expr) : cres :=
   | Err er => CExc (XErr er)
   end.
 
+Ltac soup_tac d tex C :=
+  rewrite call_S; cbn [g_funs gen_env gen_funs];
+  rewrite (invoke_plain gen_env (call gen_env (S (S (S d)))) gen_TexSoup
+                        [tex; skip_val _; tol_val _] [tex; skip_val _; tol_val _]
+                        eq_refl eq_refl eq_refl);
+  cbn; rewrite C.
+
 Lemma call_soup_str d s skip strict :
   call gen_env (S (S (S (S d)))) F_TexSoup [VStr s; skip_val skip; tol_val strict] None
   = soup_cres s (parse s strict skip).
 Proof.
   pose proof (call_read_str d s skip strict) as C.
-  cbn [call g_funs gen_env gen_funs]. unfold invoke.
-  cbn [fd_cursor fd_conv_in gen_TexSoup fill_args fd_params fd_defaults length Nat.ltb Nat.leb
-       fd_nlocals fd_body gen_TexSoup_body blk].
-  cbn [exec_block exec_stmt do_call eval_list eval get_loc nth_error fr_loc fr_text map app skipn
-       Nat.sub repeat].
-  rewrite C. destruct (parse s strict skip) as [e|er]; reflexivity.
+  soup_tac d (VStr s) C.
+  destruct (parse s strict skip) as [e|er]; destruct strict; reflexivity.
 Qed.
 
 Lemma call_soup_chunks d l skip strict :
@@ -1036,12 +1099,8 @@ Lemma call_soup_chunks d l skip strict :
 Proof.
   rewrite call_soup_str.
   pose proof (call_read_chunks d l skip strict) as C. rewrite call_read_str in C.
-  cbn [call g_funs gen_env gen_funs]. unfold invoke.
-  cbn [fd_cursor fd_conv_in gen_TexSoup fill_args fd_params fd_defaults length Nat.ltb Nat.leb
-       fd_nlocals fd_body gen_TexSoup_body blk].
-  cbn [exec_block exec_stmt do_call eval_list eval get_loc nth_error fr_loc fr_text map app skipn
-       Nat.sub repeat].
-  rewrite C. destruct (parse (concat l) strict skip) as [e|er]; reflexivity.
+  soup_tac d (chunks_val l) C.
+  destruct (parse (concat l) strict skip) as [e|er]; destruct strict; reflexivity.
 Qed.
 
 (* ---- from the top (call depth 4) *)
@@ -1091,3 +1150,14 @@ Example read_example :
   /\ top_call gen_env F_TexSoup [VStr [92; 97; 123]%N; skip_val []; tol_val false]
      = GDone (VNode (ERoot [ECmd [97%N] [EGroup GBrace [] 2] [] 0]) (Some [92; 97; 123]%N)).
 Proof. repeat split; vm_compute; reflexivity. Qed.
+
+(* Without `consecutive` the translated tokenizer differs from the hand-written
+   one: the rules that start from Token('', text.position) record the BUFFER
+   index, the hand-written rules the index carried by the first character
+   (TokGenProofs: gen_string_unconditional_refuted).  Witness: a buffer holding
+   one letter whose own index is 5.  Replayed on the implementation:
+   list(tokenize(Buffer([Token('a', 5, CC.Letter)]))) has position 0 -- the
+   translated code is right, the hand model is only used on categorize s. *)
+Theorem tokenize_glue_unconditional_refuted :
+  exists cs, tokenize_glue gen_env cs <> tok_result (tokenize cs).
+Proof. exists [mkc 97 5 CLetter]. vm_compute. discriminate. Qed.
